@@ -144,24 +144,49 @@ func H_C02_name() {
 func H_C02_ptrchain() {
 	hops := 120 + vChoice("hops", 10) // 120..129 pointers followed by the root
 	b := make([]byte, 2*hops+1)
-	// pointer i at offset 2i points to offset 2(i+1); the last points to the root octet
-	for i := 0; i < hops; i++ {
-		tgt := 2 * (i + 1)
-		b[2*i] = 0xC0 | byte(tgt>>8)
-		b[2*i+1] = byte(tgt)
+	backward := vChoice("direction", 2) == 1
+	start := 0
+	if !backward {
+		// pointer i at offset 2i points to offset 2(i+1); the last points to the root octet
+		for i := 0; i < hops; i++ {
+			tgt := 2 * (i + 1)
+			b[2*i] = 0xC0 | byte(tgt>>8)
+			b[2*i+1] = byte(tgt)
+		}
+		b[2*hops] = 0
+	} else {
+		// the root octet first; pointer i at offset 1+2i points strictly backwards to pointer i-1 (the first to the root);
+		// decoding starts at the last pointer
+		b[0] = 0
+		for i := 0; i < hops; i++ {
+			tgt := 0
+			if i > 0 {
+				tgt = 1 + 2*(i-1)
+			}
+			b[1+2*i] = 0xC0 | byte(tgt>>8)
+			b[2+2*i] = byte(tgt)
+		}
+		start = 1 + 2*(hops-1)
 	}
-	b[2*hops] = 0
 	// one symbolic pointer low octet somewhere in the chain (may create a loop or a jump)
 	pos := vChoice("pos", 3)
 	idx := []int{1, hops, 2*hops - 1}[pos]
+	if backward {
+		idx = []int{2, hops + 1 - hops%2, 2 * hops}[pos] // low octets of the first, a middle and the last pointer
+	}
+	orig := b[idx]
 	b[idx] = vU8("x")
-	s, _, err := UnpackDomainName(b, 0)
+	s0 := vSteps()
+	s, _, err := UnpackDomainName(b, start)
+	steps := vSteps() - s0
 	vReach("chain-returned")
-	vObserve("chain", hops, err)
+	vObserve("chain", hops, backward, err)
 	if err == nil {
 		vAssert(vNameWithinLimits(s), "accepted-name-within-limits")
 	}
-	vAssert(err != nil || hops <= 126 || true, "returns")
+	vAssert(steps <= 60000*(len(b)+1), "work-bounded-by-input-length")
+	// the unaltered chain follows `hops` pointers: beyond the library's limit of 126 it must be refused
+	vAssert(b[idx] != orig || hops <= 126 || err != nil, "pointer-hop-limit-enforced")
 }
 
 // H_C02_print: whatever is accepted can be printed, measured, copied and re-packed: every registry type decoded
